@@ -22,10 +22,11 @@ use tokio::time::Instant;
 /// Runs a future on a fresh current-thread runtime with paused (virtual) time. Everything spawned
 /// inside is dropped with the runtime, so nothing outlives the case. Panics in spawned tasks are
 /// recorded by the harness panic hook; they are returned alongside the output.
-pub fn run_virtual<F: Future>(f: F) -> (F::Output, Vec<PanicInfo>) {
+pub fn run_virtual<F: Future>(f: F) -> (Option<F::Output>, Vec<PanicInfo>) {
     let _ = take_local_panics();
     let rt = tokio::runtime::Builder::new_current_thread().enable_time().start_paused(true).build().expect("runtime");
-    let out = rt.block_on(f);
+    // run_internet itself panics when a protocol's start task panicked and its join result is seen first
+    let out = std::panic::catch_unwind(std::panic::AssertUnwindSafe(|| rt.block_on(f))).ok();
     drop(rt);
     (out, take_local_panics())
 }
@@ -39,6 +40,7 @@ pub enum Proto {
 
 #[derive(Debug, Clone)]
 pub struct FrameRec {
+    pub order: u64,
     pub t: Duration,
     pub net: u64,
     pub seq: u64,
@@ -66,6 +68,8 @@ pub type Planner = Box<dyn Fn(&FrameRec, &[FrameRec]) -> Decision + Send + Sync>
 
 /// Frame log and deterministic fault plan.
 pub struct Wire {
+    /// logical clock shared by frame events and harness stamps (orders events of one virtual instant)
+    pub counter: std::sync::atomic::AtomicU64,
     pub start: Mutex<Option<Instant>>,
     pub frames: Mutex<Vec<FrameRec>>,
     pub planner: Mutex<Option<Planner>>,
@@ -73,7 +77,7 @@ pub struct Wire {
 
 impl Wire {
     pub fn new() -> Arc<Wire> {
-        Arc::new(Wire { start: Mutex::new(None), frames: Mutex::new(vec![]), planner: Mutex::new(None) })
+        Arc::new(Wire { counter: std::sync::atomic::AtomicU64::new(1), start: Mutex::new(None), frames: Mutex::new(vec![]), planner: Mutex::new(None) })
     }
     pub fn set_planner(&self, p: Planner) {
         *self.planner.lock().unwrap() = Some(p);
@@ -88,6 +92,9 @@ impl Wire {
                 Duration::ZERO
             }
         }
+    }
+    pub fn tick(&self) -> u64 {
+        self.counter.fetch_add(1, std::sync::atomic::Ordering::SeqCst)
     }
     pub fn mark_start(&self) {
         let _ = self.now();
@@ -107,6 +114,7 @@ impl FrameHook for Wire {
             Proto::Other
         };
         let mut rec = FrameRec {
+            order: self.tick(),
             t: self.now(),
             net: f.net,
             seq: f.seq,
@@ -145,6 +153,7 @@ impl FrameHook for Wire {
         } else {
             // a duplicate created by the hook: log it as its own record
             frames.push(FrameRec {
+                order: self.tick(),
                 t,
                 net: f.net,
                 seq: f.seq,
@@ -175,6 +184,7 @@ impl FrameHook for Wire {
 
 #[derive(Debug, Clone)]
 pub struct DemuxRec {
+    pub order: u64,
     pub t: Duration,
     pub machine: usize,
     pub app: usize,
@@ -211,6 +221,7 @@ impl<const N: usize> Protocol for Recorder<N> {
 
     fn demux(&self, message: Message, _caller: Arc<dyn Session>, control: Control, _machine: Arc<Machine>) -> Result<(), DemuxError> {
         self.log.lock().unwrap().push(DemuxRec {
+            order: self.wire.tick(),
             t: self.wire.now(),
             machine: self.machine,
             app: N,
